@@ -224,7 +224,8 @@ def run(cx):
                 r.fail(f"{m.rel.split('/')[-1]}/{dotted(n)}", (m, n), f"reads {dotted(n)}")
 
 
-def rule_global_state(cx, rid, mods, floor=40):
+def rule_global_state(cx, rid, mods, floor=40, only=None):
+    """only: qualname prefixes - report state only where one of these functions writes/reads it (purity of the named mechanism)"""
     pm = mods[0]
     r = cx.rule(rid, "no module-level mutable state is written (or can be written) by parse()/emit(): no empty module-level containers/iterators, no stores through module-level tables, no global/func-attribute rebinding, no mutable defaults, no caches of impure results", floor=floor)
     state_mods = mods + ([mod("toolchain/pio.py")] if "parse" in pm.funcs else [])
@@ -247,12 +248,25 @@ def rule_global_state(cx, rid, mods, floor=40):
                     kind = "stateful-object"
             if kind:
                 mutable_globals[name] = kind
+        def _in_scope(q_):
+            return only is None or any(q_ == o or q_.startswith(o + ".") for o in only)
+
+        used_by_scope = None
+        if only is not None:
+            used_by_scope = set()
+            for q_, fn_ in m.funcs.items():
+                if _in_scope(q_):
+                    used_by_scope |= {x.id for x in ast.walk(fn_) if isinstance(x, ast.Name)}
         for name, kind in mutable_globals.items():
+            if used_by_scope is not None and name not in used_by_scope:
+                continue
             if kind in ("empty-container", "stateful-object"):
                 r.fail(f"{m.rel.split('/')[-1]}:{name}/module-level-{kind}", (m.rel, m.consts[name].lineno), f"module-level {kind} `{name}` can only serve as state shared between calls (other scripts, other instances)")
             else:
                 r.ok(f"{m.rel.split('/')[-1]}:{name} literal table")
         for q, fn in m.funcs.items():
+            if not _in_scope(q):
+                continue
             loc = Locals(fn)
             shadow = set(loc.defs) | loc.params
             for n in walk_local(fn, include_self=False):
